@@ -1549,6 +1549,32 @@ func (g *bundleGen) plantAnonPointers() {
 			k = 2
 		}
 	}
+	if !usePreferred && len(sameDef) < 2 {
+		// bias, sometimes, towards two rarer kinds of target: the COMPLEX schema of a shared parameter/response, and a
+		// target whose pointer holds a non-ASCII letter (URL-escaped in the $ref, raw in the key)
+		var narrowed []target
+		switch {
+		case g.on("anonPtrShared") && r.P(30):
+			if !g.opts.RemoveUnused {
+				rd.responses["complexShared"] = obj{"description": "shared", "schema": obj{"type": "object", "properties": obj{"payload": g.primitive(), "more": obj{"type": "array", "items": g.primitive()}}}}
+				rd.paths["/cshared"] = obj{"get": obj{"responses": obj{"200": obj{"$ref": "#/responses/complexShared"}}}}
+				narrowed = append(narrowed, target{[]string{"responses", "complexShared", "schema"}})
+			}
+		case r.P(25):
+			for _, t := range targets {
+				for _, tok := range t.toks {
+					for _, c := range tok {
+						if c > 127 && unicode.IsLetter(c) {
+							narrowed = append(narrowed, t)
+						}
+					}
+				}
+			}
+		}
+		if len(narrowed) > 0 {
+			targets = narrowed
+		}
+	}
 	for i := 0; i < k; i++ {
 		t := targets[r.Intn(len(targets))]
 		if usePreferred {
